@@ -65,11 +65,10 @@ Theorem C17_outside_frames : forall fs vals v x,
 Proof. exact C17_outside_frames_proof. Qed.
 Print Assumptions C17_outside_frames.
 
-(* no panic: with B a bound on all durations, every departure that leaves
-   room for B before max_time has a value (fs = [] included) *)
-Theorem C17_total : forall fs vals B v,
-  layout_ok fs -> vals_ok vals -> (forall k, vals k <= B) ->
-  0 <= v -> v + B <= inject_Z max_time ->
+(* no panic: every non-negative departure has a value, however late
+   (fs = [] included) *)
+Theorem C17_total : forall fs vals v,
+  layout_ok fs -> vals_ok vals -> 0 <= v ->
   exists x, value_at_value (fst (set_expressions td_empty fs)) vals v = Val x.
 Proof. exact C17_total_proof. Qed.
 Print Assumptions C17_total.
